@@ -829,6 +829,17 @@ def _header_timestamp_ok(ctx, origin) -> tuple[Optional[bool], str]:
     # evaluation order: arguments of a call come before the call itself; take the innermost-first order
     def eval_key(cs):
         return (cs.node.end_lineno, cs.node.end_col_offset)
+    # only calls that can emit lines count: those that are handed the list the header helper appends to
+    mine = [cs for cs in calls if cs.target.fq == fi.fq]
+    out_name = None
+    if mine and lst is not None and params.index(lst) < len(mine[0].node.args) and isinstance(mine[0].node.args[params.index(lst)], ast.Name):
+        out_name = mine[0].node.args[params.index(lst)].id
+    if out_name is not None:
+        calls = [cs for cs in calls if any(isinstance(a, ast.Name) and a.id == out_name for a in cs.node.args)]
+        direct = [n_ for n_ in own_walk(w.node) if isinstance(n_, ast.Call) and isinstance(n_.func, ast.Attribute) and n_.func.attr in ("append", "extend", "insert")
+                  and isinstance(n_.func.value, ast.Name) and n_.func.value.id == out_name]
+        if direct and mine and min((d.lineno, d.col_offset) for d in direct) < (mine[0].node.lineno, mine[0].node.col_offset):
+            return False, "lines are emitted before the header helper is called"
     first = None
     for cs in sorted(calls, key=lambda c: (c.node.lineno, c.node.col_offset)):
         inner = [c2 for c2 in calls if c2 is not cs and any(x is c2.node for x in ast.walk(cs.node))]
